@@ -82,7 +82,7 @@ class get_table_offset:
                " result[0] >= phdr(self.elffile, j).p_vaddr and"
                " result[0] + 1 <= phdr(self.elffile, j).p_vaddr + phdr(self.elffile, j).p_filesz,"
                " 0, max(0, nseg(self.elffile))))"]
-    may_raise = ["ELFError", "OverflowError"]
+    may_raise = ["ELFError", "OverflowError", "TypeError"]      # TypeError: from the segment enumeration (PN_XNUM, section 0 with a link beyond the file)
 
 
 TagRet = Obj('DynamicTag', entry=DynRec)
